@@ -34,7 +34,7 @@ EXPLANATION = ("theorems: the sweep laws refine the documented laws on live supp
 
 
 def gen_fn(rng):
-    return gen.gen_system(rng, phases=0.15, p_rail=0.15, p_neg_src_rs=0.05, p_group=rng.choice([0.0, 0.0, 0.3]))
+    return gen.gen_system(rng, phases=0.15, p_rail=0.15, p_neg_src_rs=0.05, p_group=rng.choice([0.0, 0.0, 0.3]), p_rename=0.1)
 
 
 def solve_kw(rng):
